@@ -223,7 +223,7 @@ def big_database(n: int, layout: str = 'none'):
     return st + [('p', 'goal', (TH, target), proof)], target
 
 
-def many_vars_database(layout: str = 'none', swap: bool = False):
+def many_vars_database(layout: str = 'none', swap: bool = False, with_lemma: bool = False):
     """twelve pattern variables ph0..ph11 declared in numeric order; a constructor, an axiom and a rule that mix ph2 and
     ph10 (whose NAMES sort the other way round); the target is a ground instance that tells the two apart"""
     ft = Features()
@@ -240,6 +240,15 @@ def many_vars_database(layout: str = 'none', swap: bool = False):
     frames = {k: f for k, f in v.labels.items() if isinstance(f, mmref.Frame)}
     a, b = (A('c1'), A('c0')) if swap else (A('c0'), A('c1'))
     target = IMP(H(a, b), IMP(b, H(a, b)))
-    tree = apply('ax-m', frames, {'ph2': a, 'ph10': b}, [])
+    if with_lemma:
+        # a lemma over ph2 and ph10 themselves (mandatory hypotheses in declaration order: ph2 first), used by the goal
+        lt = IMP(H(p2, p10), IMP(p10, H(p2, p10)))
+        st = st + [('p', 'l11', (TH, lt), mmref.encode_compressed(apply('ax-m', frames, {'ph2': p2, 'ph10': p10}, []),
+                                                                ['ph2-is-pattern', 'ph10-is-pattern'], layout))]
+        v = mmref.verify_db(st)
+        frames = {k: f for k, f in v.labels.items() if isinstance(f, mmref.Frame)}
+        tree = apply('l11', frames, {'ph2': a, 'ph10': b}, [])
+    else:
+        tree = apply('ax-m', frames, {'ph2': a, 'ph10': b}, [])
     proof = mmref.encode_compressed(tree, [], layout)
     return st + [('p', 'goal', (TH, target), proof)], target
